@@ -17,6 +17,7 @@ hook) and the token list the parser returned (parser-entry wrapper).
 import collections
 import copy
 import hashlib
+import re
 
 from .. import workload
 from ..common import NEUTRAL_WORLD, OpView, done, event_digest, run, violation
@@ -325,7 +326,7 @@ def evaluate(sc):
     for op_index, op in enumerate(sc["ops"]):
         mode = op["mode"]
         view = OpView(result["ops"][op_index])
-        errored_files = set(view.err0)
+        errored_files = set(view.err0) | set(re.findall(r" encountered while scanning '([^']+)':", view.stderr))
         aborted = bool(view.exc) or any(marker in view.stderr for marker in ("Unexpected Error", "Configuration Error", "BadPluginError encountered", "BadTokenizationError encountered"))
         for plugin in sc["record"]:
             probe_cfg = sc["probes"].get(plugin)
